@@ -157,6 +157,14 @@ def apply(soup, root, op):
     """returns 'skip' when the op instance does not exist in the current document, else None"""
     name = op[0]
     nodes = m_nodes(root, [])
+    if name in ('delete-new', 'replace-new', 'remove-new'):
+        # target the node that the previous step added (wherever it sits now)
+        la = root.get('last_added') or []
+        if not la or not any([x is la[0] for x in nodes]):
+            return 'skip'
+        k = [j for j, x in enumerate(nodes) if x is la[0]][0]
+        op = (name[:-4], k) + tuple(op[1:])
+        name = op[0]
     if name in ('delete', 'replace', 'remove', 'rename', 'string', 'args', 'share'):
         k = op[1]
         if k >= len(nodes):
@@ -186,6 +194,7 @@ def apply(soup, root, op):
             lst[i:i + 1] = ms
             for x in ms:
                 x['parent'] = m['parent']
+            root['last_added'] = [x for x in ms if x['t'] != 'text'][:1]
         elif name == 'rename':
             if m['t'] not in ('cmd', 'env'):
                 return 'skip'
@@ -276,6 +285,7 @@ def apply(soup, root, op):
             m['contents'].extend(ms)
         for x in ms:
             x['parent'] = m
+        root['last_added'] = [x for x in ms if x['t'] != 'text'][:1]
         return None
     raise AssertionError(op)
 
